@@ -306,7 +306,15 @@ def run_impl(case):
         q = "&".join(escape.url_escape(bytes(k)) + "=" + escape.url_escape(bytes(v)) for k, v in case["ps"])
         return [obytes(q.encode("latin-1")), qs_obs(q.encode("latin-1"), case["keep"], case["strict"]),
                 qs_obs(q, case["keep"], case["strict"])]
+    if op == "qsraw":
+        q = b"&".join(_min_escape(bytes(k)) + b"=" + _min_escape(bytes(v)) for k, v in case["ps"])
+        return [obytes(q), qs_obs(q, case["keep"], case["strict"]), qs_obs(q.decode("latin-1"), case["keep"], case["strict"])]
     raise ValueError(op)
+
+
+def _min_escape(b):
+    """only & = + % are percent-encoded; every other byte stays raw (independent of tornado and urllib)"""
+    return b"".join(b"%%%02X" % c if c in (38, 61, 43, 37) else bytes([c]) for c in b)
 
 
 def coq_input(case):
@@ -331,6 +339,9 @@ def coq_input(case):
         return "(IRecUni %s)" % g_pv(case["v"])
     if op == "qs":
         return "(IQs %s %s %s)" % (g_sval(case["v"]), G.gbool(case["keep"]), G.gbool(case["strict"]))
+    if op == "qsraw":
+        return "(IQsRaw %s %s %s)" % (G.glist(["(%s, %s)" % (gcps(k), gcps(v)) for k, v in case["ps"]], "(list N * list N)"),
+                                      G.gbool(case["keep"]), G.gbool(case["strict"]))
     if op == "qsrt":
         return "(IQsRT %s %s %s)" % (G.glist(["(%s, %s)" % (gcps(k), gcps(v)) for k, v in case["ps"]], "(list N * list N)"),
                                      G.gbool(case["keep"]), G.gbool(case["strict"]))
@@ -408,7 +419,7 @@ def py_check(case, o):
         if not isinstance(val, (str, bytes, type(None))):
             return o == [T("TypeError")]
         return True
-    if op == "qsrt":
+    if op in ("qsrt", "qsraw"):
         want = {}
         for k, v in case["ps"]:
             if v or case["keep"]:
@@ -633,6 +644,8 @@ def corpus_cases():
         C("qs", v=s_("k=€"), keep=False, strict=False),
         C("qsrt", ps=[[[97, 32, 38], [61, 43, 37, 255]], [[97, 32, 38], []], [[], [0]]], keep=True, strict=False),
         C("qsrt", ps=[[[97, 32, 38], [61, 43, 37, 255]], [[97, 32, 38], []], [[], [0]]], keep=False, strict=True),
+        C("qsraw", ps=[[[113], [118, 111, 105, 108, 0xC3, 0xA0]]], keep=False, strict=False),     # trailing 0xA0 must survive
+        C("qsraw", ps=[[[0xA0, 110], [118]], [[9], [32, 13, 10]]], keep=True, strict=True),
     ]
     return out
 
@@ -781,6 +794,27 @@ def gen_cases(rng, tier):
             ps.append([rng.choice(names), rng.choice([[], rbytes(rng, rng.randrange(0, 5)), [rng.randrange(256)]])])
         keep, strict = rng.choice(flags)
         out.append(C("qsrt", ps=ps, keep=keep, strict=strict))
+    # ---- raw (minimally escaped) query strings: every byte value first, last and inside a name / value
+    WSLIKE = [0x09, 0x0A, 0x0B, 0x0C, 0x0D, 0x1C, 0x1D, 0x1E, 0x1F, 0x20, 0x85, 0xA0]
+    for w in WSLIKE:
+        out.append(C("qsraw", ps=[[[w, 110], [118]]], keep=False, strict=False))            # first byte of the string
+        out.append(C("qsraw", ps=[[[113], [118, w]]], keep=False, strict=True))             # last byte of the string
+        out.append(C("qsraw", ps=[[[110, w, 110], [118, w, 118]], [[w], [w]]], keep=True, strict=False))
+        out.append(C("qs", v=["b", [w, 110, 61, 118, w]], keep=False, strict=False))
+        out.append(C("qs", v=["s", [w, 110, 61, 118, w]], keep=True, strict=True))
+        out.append(C("qs", v=["b", [110, 61, 118, w, w]], keep=False, strict=False))
+    out.append(C("qsraw", ps=[[[113], [118, 111, 105, 108, 0xC3, 0xA0]]], keep=False, strict=False))   # b'q=voil\xc3\xa0'
+    for bv in range(256):
+        if thorough or bv % 3 == 0 or bv in WSLIKE or bv in (37, 38, 43, 61):
+            out.append(C("qsraw", ps=[[[bv, 97], [98, bv]]], keep=False, strict=True))
+    for _ in range(60 * k):
+        ps = []
+        for _ in range(rng.randrange(1, 4)):
+            kk = [rng.choice(WSLIKE + [37, 38, 43, 61, 97, 0xC3, 0xFF]) if rng.random() < 0.6 else rng.randrange(256) for _ in range(rng.randrange(0, 4))]
+            vv = [rng.choice(WSLIKE + [37, 38, 43, 61, 97, 0xC3, 0xFF]) if rng.random() < 0.6 else rng.randrange(256) for _ in range(rng.randrange(0, 4))]
+            ps.append([kk, vv])
+        keep, strict = rng.choice(flags)
+        out.append(C("qsraw", ps=ps, keep=keep, strict=strict))
     for b in range(256):
         if thorough or b % 4 == 0 or b in (32, 37, 38, 43, 61):
             out.append(C("qsrt", ps=[[[b], [b, b]]], keep=True, strict=True))
@@ -790,7 +824,7 @@ def gen_cases(rng, tier):
 # ---------------------------------------------------------------- evidence helpers
 def _payload(case):
     op = case["op"]
-    if op == "qsrt":
+    if op in ("qsrt", "qsraw"):
         return case["ps"]
     v = case["v"]
     return v[1] if len(v) > 1 else []
@@ -820,7 +854,7 @@ def signature(case, o):
 
 def shrink(case):
     op = case["op"]
-    if op == "qsrt":
+    if op in ("qsrt", "qsraw"):
         ps = case["ps"]
         for i in range(len(ps)):
             yield dict(case, ps=ps[:i] + ps[i + 1:])
